@@ -280,7 +280,8 @@ def run_cases(draw):
             "pipeline_seed": draw(st.one_of(st.integers(0, 2**32 - 1), st.sampled_from([0, 42]))),
             "own_seeds": draw(st.booleans()), "steps": draw(st.integers(1, 3)),
             "prior": [[draw(st.integers(0, 10**6)), draw(st.integers(0, 20))], [draw(st.integers(0, 10**6)), draw(st.integers(0, 20))]],
-            "earlier": draw(st.sampled_from(["nothing", "unseeded_run", "failing_run"])), "pygmo_seed": draw(st.integers(0, 100000)),
+            "earlier": draw(st.sampled_from(["nothing", "unseeded_run", "failing_run"])),
+            "pygmo_seed": draw(st.one_of(st.sampled_from([0, 0, 1, 100000]), st.integers(0, 100000))),  # "all seeds": the ends of the accepted range too
             "fail_at": draw(st.sampled_from([None, None, "mid"]))}
 
 
@@ -428,7 +429,17 @@ def body_leak(case, rec):
               "two different prior generator states ended in the same state: the model re-seeded the process-wide generator")
 
 
-PARTS = {"helper": body_helper, "models": body_models, "runs": body_runs, "leak": body_leak}
+def seed_boundary_cases():
+    """Calibration at the ends of both seed ranges (enumerated, so that they are run whatever the random draw)."""
+    out = []
+    for pg in (0, 1, 100000):
+        for ps in (0, 2**32 - 1):
+            out.append({"models": ["shot", "noise"], "mode": "calibration", "pipeline_seed": ps, "own_seeds": False, "steps": 1,
+                        "prior": [[11, 0], [99, 5]], "earlier": "nothing", "pygmo_seed": pg, "fail_at": None})
+    return out
+
+
+PARTS = {"helper": body_helper, "models": body_models, "runs": body_runs, "leak": body_leak, "seed_boundaries": body_runs}
 
 
 def plan(tier):
@@ -438,4 +449,5 @@ def plan(tier):
         Part(name="models", kind="enum", cases=model_cases),
         Part(name="leak", kind="enum", cases=leak_cases),
         Part(name="runs", kind="gen", strategy=run_cases, examples=25 if q else 200),
+        Part(name="seed_boundaries", kind="enum", cases=seed_boundary_cases),
     ]
